@@ -451,7 +451,88 @@ def twins(repo, rep):
         rep.fail("R-C15-4", g1.file, g1.node.lineno, g1.qualname, f"{gfacts(g1)} vs {gfacts(g2)}", "the two Gaussian implementations differ")
 
 
+def positive_divisors(repo, rep):
+    """R-C15-10: a quantity that is limited from below and then used as a divisor must be limited to a POSITIVE floor: max(x, 0) still allows
+    0/0 and x/0 (NaN / inf), which the construction then carries into the whole spectrum (or silently zero-fills)."""
+    rep.rule("R-C15-10", "in the construction helpers, a divisor defined through a lower limiter (np.maximum(x, c), clip(min=c)) has c > 0")
+    from ..astutil import resolve
+    n = 0
+    for fi in repo.all_funcs():
+        if not fi.qualname.startswith("wavespectra.construct."):
+            continue
+        for d in ast.walk(fi.node):
+            if not (isinstance(d, ast.BinOp) and isinstance(d.op, ast.Div)):
+                continue
+            den = d.right
+            if isinstance(den, ast.Name):
+                den = resolve(fi.node, den, before=d.lineno) or den
+            floor = None
+            if isinstance(den, ast.Call) and (call_name(den) or "").split(".")[-1] in ("maximum", "fmax") and len(den.args) == 2:
+                cs = [repo.const(fi.module, a) for a in den.args]
+                floor = next((c for c in cs if isinstance(c, (int, float))), None)
+            elif isinstance(den, ast.Call) and isinstance(den.func, ast.Attribute) and den.func.attr == "clip":
+                k = kwarg(den, "min") or (den.args[0] if den.args else None)
+                floor = repo.const(fi.module, k) if k is not None else None
+            elif isinstance(den, ast.Call) and (call_name(den) or "").split(".")[-1] == "clip" and len(den.args) >= 2:
+                floor = repo.const(fi.module, den.args[1])
+            if floor is None or not isinstance(floor, (int, float)):
+                continue
+            n += 1
+            if floor > 0:
+                rep.ok("R-C15-10", f"{fi.file}:{d.lineno} {fi.short}", unparse(d)[:70], f"divisor limited to >= {floor}")
+            else:
+                rep.fail("R-C15-10", fi.file, d.lineno, fi.qualname, f"{unparse(d)[:60]}  with  {unparse(den)[:60]}",
+                         f"the divisor is only limited to >= {floor}: when the limited quantity is not positive (mean frequency not above the peak frequency "
+                         "for a narrow swell) the gradients are 0/0 or x/0, the modified direction / spread turn NaN and the constructed spectrum is "
+                         "NaN or silently zero instead of having the requested height")
+    rep.floor("R-C15-10", "limited divisors in the construction helpers", n, 2)
+
+
+def overflow_safe_depth_function(repo, rep):
+    """R-C15-11: TMA's depth function tends to 1 in deep water.  Written as a quotient whose numerator AND denominator both contain sinh / cosh /
+    exp of the relative depth it evaluates to inf/inf = NaN once kd exceeds ~355 (open-ocean depths), instead of to 1."""
+    rep.rule("R-C15-11", "no quotient in the TMA depth function has an unbounded hyperbolic / exponential term of the depth in both numerator and "
+                         "denominator (inf / inf = NaN in deep water, where TMA must equal JONSWAP)")
+    fi = repo.func("wavespectra.construct.frequency.tma")
+    GROW = ("sinh", "cosh", "exp", "expm1")
+    ctrl = ast.parse("p = np.tanh(kd)**2 * np.sinh(2*kd) / (np.sinh(2*kd) + 2*kd)\nq = np.tanh(kd)**2 / (1 + 2*kd/np.sinh(2*kd))")
+
+    def bad_div(tree):
+        out = []
+        for d in ast.walk(tree):
+            if isinstance(d, ast.BinOp) and isinstance(d.op, ast.Div):
+                def grows(e):
+                    # growth functions that are NOT themselves under a further division inside e
+                    res = False
+                    stack = [e]
+                    while stack:
+                        x = stack.pop()
+                        if isinstance(x, ast.BinOp) and isinstance(x.op, ast.Div):
+                            stack.append(x.left)
+                            continue
+                        if isinstance(x, ast.Call) and (call_name(x) or "").split(".")[-1] in GROW:
+                            res = True
+                        stack.extend(ast.iter_child_nodes(x))
+                    return res
+                num = d.left
+                # a * sinh / den : numerator of the whole product chain
+                if grows(num) and grows(d.right):
+                    out.append(d)
+        return out
+    if len(bad_div(ctrl)) != 1:
+        raise AnalysisError("R-C15-11 self-test: inf/inf quotient idiom not recognised")
+    bad = bad_div(fi.node)
+    if bad:
+        rep.fail("R-C15-11", fi.file, bad[0].lineno, fi.qualname, unparse(bad[0])[:110],
+                 "numerator and denominator both grow like sinh / exp of the relative depth: for kd > ~355 (deep ocean) both overflow and the quotient is "
+                 "NaN, so deep-water TMA is NaN instead of equal to JONSWAP")
+    else:
+        rep.ok("R-C15-11", f"{fi.file}:{fi.node.lineno} tma", "depth function", "growth terms appear on one side of each quotient only: the deep-water limit is finite")
+
+
 def run(repo, rep, tier):
+    positive_divisors(repo, rep)
+    overflow_safe_depth_function(repo, rep)
     rep.rule("R-C15-8", "every parameter of the functions behind this property is read (parametric shapes): none is accepted and then ignored, and no control parameter (cutoff, limit, tolerance, window, count, switch) is replaced by another value before use (coercion and default filling aside)")
     from .shared import unused_parameters
     unused_parameters(repo, rep, "R-C15-8", ("wavespectra.construct", "wavespectra.core.npstats.jonswap", "wavespectra.core.npstats.gaussian"), "parametric shapes")
